@@ -438,13 +438,16 @@ pub fn multi_life(_args: &[String]) -> String {
     std::panic::set_hook(Box::new(|_| {}));
     let mut tried = 0u64;
     // ops: 0 add a bar, 1 finish(first alive unfinished), 2 finish(last alive unfinished), 3 drop(first alive), 4 drop(last alive),
-    //      5 inc(first alive unfinished), 6 inc(last alive unfinished), 7 finish_and_clear(first alive unfinished), 8 tick every alive bar
+    //      5 inc(first alive unfinished), 6 inc(last alive unfinished), 7 finish_and_clear(first alive unfinished), 8 tick every alive bar,
+    //      9 println through the first alive bar (only before any drop), 10 drop(second alive)
     struct B { name: String, pb: Option<ProgressBar>, pos: u64, finished: bool, visible: bool }
-    let run = |ops: &[usize], tried: &mut u64| -> Option<String> {
+    let run = |ops: &[usize], lazy: bool, tried: &mut u64| -> Option<String> {
         let term = InMemoryTerm::new(12, 40);
         let mp = MultiProgress::with_draw_target(ProgressDrawTarget::term_like(Box::new(term.clone())));
         let mut bars: Vec<B> = vec![];
-        let mut hist: Vec<String> = vec![];
+        let mut hist: Vec<String> = vec![if lazy { "(no ticks between the operations)".to_string() } else { "(every alive unfinished bar ticks after each operation)".to_string() }];
+        let mut logs: Vec<String> = vec![];
+        let mut dropped_any = false;
         let mut add = |bars: &mut Vec<B>, hist: &mut Vec<String>| {
             let name = format!("b{}", bars.len());
             let pb = mp.add(ProgressBar::new(10));
@@ -455,21 +458,38 @@ pub fn multi_life(_args: &[String]) -> String {
         };
         add(&mut bars, &mut hist);
         add(&mut bars, &mut hist);
-        for op in ops {
+        for (step, op) in ops.iter().enumerate() {
             let alive: Vec<usize> = (0..bars.len()).filter(|i| bars[*i].pb.is_some()).collect();
             let unfinished: Vec<usize> = alive.iter().copied().filter(|i| !bars[*i].finished).collect();
             match *op {
                 0 => { if bars.len() >= 5 { return None; } add(&mut bars, &mut hist); }
                 1 | 2 => { let i = *(if *op == 1 { unfinished.first() } else { unfinished.last() })?; bars[i].pb.as_ref().unwrap().finish(); bars[i].finished = true; bars[i].pos = 10; hist.push(format!("{}.finish()", bars[i].name)); }
-                3 | 4 => { let i = *(if *op == 3 { alive.first() } else { alive.last() })?; bars[i].pb = None; if !bars[i].finished { bars[i].visible = false; } hist.push(format!("drop {}", bars[i].name)); }
+                3 | 4 | 10 => { let i = *(if *op == 3 { alive.first() } else if *op == 4 { alive.last() } else { alive.get(1) })?; dropped_any = true; bars[i].pb = None; if !bars[i].finished { bars[i].visible = false; } hist.push(format!("drop {}", bars[i].name)); }
                 5 | 6 => { let i = *(if *op == 5 { unfinished.first() } else { unfinished.last() })?; bars[i].pb.as_ref().unwrap().inc(1); bars[i].pos += 1; hist.push(format!("{}.inc(1)", bars[i].name)); }
                 7 => { let i = *unfinished.first()?; bars[i].pb.as_ref().unwrap().finish_and_clear(); bars[i].finished = true; bars[i].visible = false; bars[i].pos = 10; hist.push(format!("{}.finish_and_clear()", bars[i].name)); }
+                9 => {
+                    // a line printed through a member bar (finished or not); only while no bar has been dropped: println next to
+                    // dropped finished bars is where the listed C03 findings live
+                    if dropped_any { return None; }
+                    let i = *alive.first()?;
+                    let t = format!("log-{}", step);
+                    bars[i].pb.as_ref().unwrap().println(&t);
+                    logs.push(t.clone());
+                    hist.push(format!("{}.println({:?})", bars[i].name, t));
+                }
                 _ => { hist.push("tick every alive bar".into()); }
             }
+            if lazy && step + 1 != ops.len() {
+                continue;
+            }
             for b in bars.iter() { if let Some(pb) = &b.pb { if !b.finished { pb.tick(); } } }
+            if lazy && bars.iter().all(|b| b.pb.is_none() || b.finished) {
+                return None;   // nothing left that could draw: the screen is only defined after a draw
+            }
             *tried += 1;
             // a bar that was never drawn while it was the only thing alive may still be invisible: every alive bar is ticked above
-            let want: Vec<String> = bars.iter().filter(|b| b.visible).map(|b| format!("{} {}/10", b.name, b.pos)).collect();
+            let mut want: Vec<String> = logs.clone();
+            want.extend(bars.iter().filter(|b| b.visible).map(|b| format!("{} {}/10", b.name, b.pos)));
             let want = want.join("\n");
             let got = term.contents();
             if got != want {
@@ -480,8 +500,14 @@ pub fn multi_life(_args: &[String]) -> String {
         }
         None
     };
-    for a in 0..9 { for b in 0..9 { for c in 0..9 { for d in 0..9 { for e in [0usize, 3, 5, 8] { for f in [0usize, 4, 6, 8] {
-        if let Some(r) = run(&[a, b, c, d, e, f], &mut tried) { return r; }
+    for a in 0..11 { for b in 0..11 { for c in 0..11 { for d in 0..11 { for e in [0usize, 3, 5, 10] { for f in [0usize, 4, 6, 8] {
+        if let Some(r) = run(&[a, b, c, d, e, f], false, &mut tried) { return r; }
+    }}}}}}
+    // the same operations without a draw in between (reaping of dropped bars is deferred to the one draw at the end);
+    // three bars more at the start so that there is a middle to drop
+    let l = [0usize, 1, 2, 3, 4, 5, 7, 10];
+    for a in l { for b in l { for c in l { for d in l { for e in l { for f in [3usize, 4, 10] {
+        if let Some(r) = run(&[0, a, b, c, d, e, f, 8], true, &mut tried) { return r; }
     }}}}}}
     format!("{{\"found\": false, \"tried\": {}}}", tried)
 }
@@ -568,6 +594,19 @@ pub fn time_laws(_args: &[String]) -> String {
         tried += 1;
         if pb.eta() != Duration::ZERO || pb.duration() != Duration::ZERO {
             return format!("{{\"found\": true, \"clause\": \"C09 eta and duration are zero for an unknown length\", \"input\": {{\"with_elapsed_secs\": {}, \"eta_ms\": {}, \"duration_ms\": {}}}, \"rerun\": \"replay time_laws\"}}", pre, pb.eta().as_millis(), pb.duration().as_millis());
+        }
+    }
+    // an ETA too long for a Duration saturates; it does not become zero
+    {
+        let pb = ProgressBar::hidden();
+        pb.set_length(u64::MAX);
+        // one step in at least 1.2 s: fewer than 0.84 steps per second, so the remaining 2^64 - 2 steps take more than 2^64 s
+        std::thread::sleep(Duration::from_millis(1200));
+        pb.inc(1);
+        tried += 1;
+        let eta = pb.eta();
+        if eta < Duration::from_secs(1 << 63) {
+            return format!("{{\"found\": true, \"clause\": \"C09 eta is the remaining steps at the current rate, saturating for values a Duration cannot hold\", \"input\": {{\"history\": \"length u64::MAX; sleep 1.2 s; inc(1)\", \"eta_secs\": {}}}, \"rerun\": \"replay time_laws\"}}", eta.as_secs());
         }
     }
     format!("{{\"found\": false, \"tried\": {}}}", tried)
